@@ -28,6 +28,7 @@ Definition worker_reports_failures : bool := false.
 Definition future_resolved_by_job_id : bool := false.
 Definition non_list_config_rejected_silently : bool := true.
 Definition falsy_payload_replaced : bool := true.
+Definition context_copied_at_enqueue : bool := false.
 Definition facts : JobQueue.facts :=
   JobQueue.mkFacts worker_reports_failures future_resolved_by_job_id non_list_config_rejected_silently.
 Definition translation_failed := true.
@@ -201,9 +202,24 @@ def analyse(repo=None):
         raise TranslationError("enqueue: expected one registration in pending_futures and one job_queue.put (found %d / %d)" % (len(reg), len(puts)))
     if not reg[0] < puts[0]:
         raise TranslationError("enqueue: the Future is registered after the job is queued (a status can arrive for an unregistered job)")
+    # ---- the context object put on the queue: a deep copy made inside enqueue (fact context_copied_at_enqueue), or the caller's
+    # object as it is
+    put = [n for n in ast.walk(enq) if isinstance(n, ast.Call) and _u(n.func) == "self.job_queue.put"][0]
+    if len(put.args) != 1 or not isinstance(put.args[0], ast.Tuple) or len(put.args[0].elts) != 5:
+        raise TranslationError("enqueue: job_queue.put is not given a 5-tuple")
+    ctx_el = _u(put.args[0].elts[3])
+    if ctx_el == "context or ContextType()":
+        copied = False
+    elif ctx_el == "job_context":
+        assigns = [_u(n) for n in ast.walk(enq) if isinstance(n, ast.Assign) and _u(n.targets[0]) == "job_context"]
+        if assigns != ["job_context = context or ContextType()", "job_context = copy.deepcopy(job_context)"]:
+            raise TranslationError("enqueue: job_context is not (context or ContextType()) followed by its deep copy: %r" % assigns)
+        copied = True
+    else:
+        raise TranslationError("enqueue: unknown context expression on the queue: " + ctx_el)
     return {"worker_reports_failures": worker_reports_exc and sets_exc, "future_resolved_by_job_id": by_id,
             "non_list_config_rejected_silently": rejected_silently, "falsy_payload_replaced": falsy,
-            "paths": [wpath, mpath]}
+            "context_copied_at_enqueue": copied, "paths": [wpath, mpath]}
 
 
 def translate():
@@ -218,9 +234,11 @@ Definition future_resolved_by_job_id : bool := %s.
 Definition non_list_config_rejected_silently : bool := %s.
 (* the worker's input is `msg.data or NoDataType()` (truth-value test) *)
 Definition falsy_payload_replaced : bool := %s.
+(* enqueue hands every job a copy (copy.deepcopy) of the context it was given *)
+Definition context_copied_at_enqueue : bool := %s.
 Definition facts : JobQueue.facts :=
   JobQueue.mkFacts worker_reports_failures future_resolved_by_job_id non_list_config_rejected_silently.
 Definition translation_failed := false.
 """ % (WORKER, MASTER, cq_bool(f["worker_reports_failures"]), cq_bool(f["future_resolved_by_job_id"]),
-       cq_bool(f["non_list_config_rejected_silently"]), cq_bool(f["falsy_payload_replaced"]))
+       cq_bool(f["non_list_config_rejected_silently"]), cq_bool(f["falsy_payload_replaced"]), cq_bool(f["context_copied_at_enqueue"]))
     return text, f["paths"]
